@@ -100,4 +100,25 @@ AskCoinbase == /\ result' \in (IF IsCoinbase(obj) THEN {"yes"} ELSE {"yes", "no"
 CountBad == /\ result' \in (IF IsCoinbase(obj) THEN {"zero"} ELSE {"zero", "some"})
             /\ calls' = calls + 1 /\ UNCHANGED <<obj, coin>>
 CNext == Check \/ AskCoinbase \/ CountBad
+
+\* ---------------------------------------------------------------- the object has a history
+\* Between calls the owner of the object edits its fields.  An edit replaces the transaction; nothing else
+\* about the object exists for the checks to depend on: Check above reads `obj` as it is NOW, so the verdict
+\* after any history equals the verdict of a fresh object holding the current fields.
+Edit(t) == /\ obj' = t /\ t # obj
+           /\ result' = "edited" /\ calls' = calls + 1 /\ UNCHANGED coin
+\* the edits the replay enumerates (each is an Edit)
+SetInScript(i, s)      == i \in 1..Len(obj.ins)  /\ Edit([obj EXCEPT !.ins[i].script = s])
+SetOutScript(j, s)     == j \in 1..Len(obj.outs) /\ Edit([obj EXCEPT !.outs[j].script = s])
+SetWitness(i, w)       == i \in 1..Len(obj.ins)  /\ Edit([obj EXCEPT !.ins[i].wit = w])
+SetValue(j, v)         == j \in 1..Len(obj.outs) /\ Edit([obj EXCEPT !.outs[j].value = v])
+SetOutpoint(i, h, x)   == i \in 1..Len(obj.ins)  /\ Edit([obj EXCEPT !.ins[i].hash = h, !.ins[i].index = x])
+AppendIn(x)            == Edit([obj EXCEPT !.ins = Append(@, x)])
+RemoveIn               == obj.ins # <<>>  /\ Edit([obj EXCEPT !.ins = SubSeq(@, 1, Len(@) - 1)])
+AppendOut(o)           == Edit([obj EXCEPT !.outs = Append(@, o)])
+RemoveOut              == obj.outs # <<>> /\ Edit([obj EXCEPT !.outs = SubSeq(@, 1, Len(@) - 1)])
+\* the script length that gives transaction t, with the script of input 1 replaced, a witness-stripped size of
+\* exactly `target` (for targets where that script needs a 5-byte length prefix)
+WithInScript1(t, n) == [t EXCEPT !.ins[1].script = Run(81, n)]
+FitInScript1(t, target) == target - (StrippedSize(WithInScript1(t, 70000)) - 70000)
 =============================================================================
